@@ -343,7 +343,7 @@ fn c05_time_single(kind: u8) {
 
 // ------------------------------------------------------------- C18: independence of the clock
 
-//@ unit c18_full_date_no_clock prop=C18 chunks=ints:2/ints:2,0,1 quick=all unwind=10 mem=6 timeout=3600 stubs=chrono::Local::now=>crate::verif_support::stub_local_now,crate::util::try_format=>crate::verif_support::stub_try_format bound="parameter 2 (quick): picture YYYYMM with every text 20ddmm (four symbolic digits); parameter 0 (thorough): every 6-digit text; parameter 1 (thorough): picture YYYYMMDD with every 8-digit text: the result is the date denoted (day 1 when omitted) or an error, and the (symbolic) clock is not consulted at all"
+//@ unit c18_full_date_no_clock prop=C18 tier=thorough chunks=ints:2,0,1 unwind=10 mem=6 timeout=3600 stubs=chrono::Local::now=>crate::verif_support::stub_local_now,crate::util::try_format=>crate::verif_support::stub_try_format bound="parameter 2 (quick): picture YYYYMM with every text 20ddmm (four symbolic digits); parameter 0 (thorough): every 6-digit text; parameter 1 (thorough): picture YYYYMMDD with every 8-digit text: the result is the date denoted (day 1 when omitted) or an error, and the (symbolic) clock is not consulted at all"
 fn c18_full_date_no_clock(with_day: i64) {
     any_clock(1970, 9999);
     let dg: [u8; 8] = kani::any();
